@@ -313,8 +313,92 @@ def c06_move_nested_child(n: int, np: int, m: int, a: int, g: int, j: int) -> bo
     return f._node.label == 100 + j
 
 
+def tree2(m: int, e: int) -> M:
+    """root with one branching node (label 0) whose body has m and whose orelse has e statements, plus a tail"""
+    return M(-1, [M(0, [M(100 + j) for j in range(m)], [M(200 + j) for j in range(e)]), M(1)])
+
+
+def c06_move_in_body_observe_orelse(m: int, e: int, a: int, g: int, j: int) -> bool:
+    """
+    pre: 2 <= m <= 4 and 1 <= e <= 4 and 0 <= a < m and 0 <= g <= m and (g < a or g > a + 1) and 0 <= j < e
+    post: _
+    """
+    # a statement is moved inside the body of node 0; cursors into the orelse of the same node are untouched
+    root = tree2(m, e)
+    n0 = Cursor.create(root)._child_node("body", 0)
+    blk = n0._child_block("body")[a : a + 1]
+    gap = n0._child_node("body", g).before() if g < m else n0._child_node("body", m - 1).after()
+    new_root, fwd = blk._move(gap)
+    cur = n0._child_node("orelse", j)
+    try:
+        f = fwd(cur)
+    except InvalidCursorError:
+        return True
+    return f._node.label == 200 + j and f._path == cur._path
+
+
+def c06_move_in_orelse_observe_body(m: int, e: int, a: int, g: int, j: int) -> bool:
+    """
+    pre: 1 <= m <= 4 and 2 <= e <= 4 and 0 <= a < e and 0 <= g <= e and (g < a or g > a + 1) and 0 <= j < m
+    post: _
+    """
+    root = tree2(m, e)
+    n0 = Cursor.create(root)._child_node("body", 0)
+    blk = n0._child_block("orelse")[a : a + 1]
+    gap = n0._child_node("orelse", g).before() if g < e else n0._child_node("orelse", e - 1).after()
+    new_root, fwd = blk._move(gap)
+    cur = n0._child_node("body", j)
+    try:
+        f = fwd(cur)
+    except InvalidCursorError:
+        return True
+    return f._node.label == 100 + j and f._path == cur._path
+
+
 # ---------------------------------------------------------------------------
 # C16: navigation laws on the internal cursors
+
+
+def c16_expand_orelse(m: int, e: int, a: int, b: int, lo: int, hi: int) -> bool:
+    """
+    pre: 1 <= m <= 4 and 1 <= e <= 4 and 0 <= a < b <= e and 0 <= lo <= 5 and 0 <= hi <= 5
+    post: _
+    """
+    # a block inside an else-branch expands within the else-branch, whatever the length of the then-branch
+    root = tree2(m, e)
+    n0 = Cursor.create(root)._child_node("body", 0)
+    blk = n0._child_block("orelse")[a:b]
+    ex = blk.expand(lo, hi)
+    got = [x._node.label for x in ex]
+    return got == [200 + k for k in range(max(0, a - lo), min(e, b + hi))]
+
+
+def c16_expand_body_with_orelse(m: int, e: int, a: int, b: int, lo: int, hi: int) -> bool:
+    """
+    pre: 1 <= m <= 4 and 1 <= e <= 4 and 0 <= a < b <= m and 0 <= lo <= 5 and 0 <= hi <= 5
+    post: _
+    """
+    root = tree2(m, e)
+    n0 = Cursor.create(root)._child_node("body", 0)
+    blk = n0._child_block("body")[a:b]
+    ex = blk.expand(lo, hi)
+    got = [x._node.label for x in ex]
+    return got == [100 + k for k in range(max(0, a - lo), min(m, b + hi))]
+
+
+def c16_next_prev_orelse(m: int, e: int, i: int, k: int) -> bool:
+    """
+    pre: 1 <= m <= 4 and 1 <= e <= 4 and 0 <= i < e and -5 <= k <= 5
+    post: _
+    """
+    root = tree2(m, e)
+    n0 = Cursor.create(root)._child_node("body", 0)
+    c = n0._child_node("orelse", i)
+    try:
+        d = c.next(k) if k >= 0 else c.prev(-k)
+    except InvalidCursorError:
+        return not (0 <= i + k < e)
+    return 0 <= i + k < e and d._node.label == 200 + i + k
 
 
 def c16_next_prev(n: int, i: int, k: int) -> bool:
